@@ -30,8 +30,8 @@ flush nothing pending, after close / expunge_all nothing attached (documented en
 this is what exposes a transition that silently did not happen).
 
 Workload: exhaustive sequences (<=3 ops quick, <=4 thorough) over a 17-op alphabet on two
-linked objects (P parent, C child) from two start configurations (new / loaded; from
-length 3 on the configuration alternates), all
+linked objects (P parent, C child) from three start configurations (new / loaded /
+solo = loaded but unlinked; from length 3 on the configuration alternates), all
 sequences of length 4-5 (6 thorough) over {add, delete+flush, flush, rollback, commit,
 expunge} on one new object, plus
 seeded random histories (6-16 ops) on up to four objects with a second session (SQL-free
@@ -253,6 +253,12 @@ def setup(w, config):
             o2.parent = o1
         w.tr.track(o1, "o1")
         w.tr.track(o2, "o2")
+    elif config == "solo":
+        # loaded, row exists, not linked to each other (P(2) has no children, C(2) no parent)
+        o1 = w.s.get(P, 2)
+        o2 = w.s.get(C, 2)
+        w.tr.names[id(o1)] = "o1"
+        w.tr.names[id(o2)] = "o2"
     else:
         o1 = w.s.get(P, 1)
         o2 = w.s.get(C, 1)
@@ -272,6 +278,20 @@ def apply_op(w, op, expected_exc):
     s, tr = w.s, w.tr
     name, on = op
     o = w.o.get(on) if on else None
+    if name in ("make_transient", "mttd") and o is not None:
+        # the two "advanced use" functions are applied to *unlinked* objects whose row exists
+        # (mttd) only: an object that other tracked objects still refer to keeps being
+        # flushed / orphan-checked through them, and a manufactured identity without a row
+        # can be both merged and added - neither is a lifecycle question
+        linked = (o.__dict__.get("parent") is not None) or bool(o.__dict__.get("children")) or any(
+            x is not o and (x.__dict__.get("parent") is o or o in (x.__dict__.get("children") or ()))
+            for x in tr.objs.values())
+        if linked:
+            return
+        if name == "mttd":
+            tab = "p" if type(o) is w.P else "c"
+            if o.__dict__.get("id") is None or not w.rig.truth(f"SELECT 1 FROM {tab} WHERE id=?", (o.__dict__["id"],)):
+                return
     w.desc["ops"].append(list(op))
     tr.op = {"nested_rollback": "rollback", "delete_flush": "delete", "s2_add": "add", "s2_expunge": "expunge",
              "s2_close": "close"}.get(name, name)
@@ -474,7 +494,7 @@ def run(ctx):
         sampled = 0
         for L in range(1, maxlen + 1):
             for seq in itertools.product(EXH_ALPHABET, repeat=L):
-                for config in (("new", "loaded") if L < 3 else (("new", "loaded")[(idx // 2) % 2],)):
+                for config in (("new", "loaded", "solo") if L < 3 else (("new", "loaded", "solo")[(idx // 2) % 3],)):
                     idx += 1
                     if not ctx.mine(idx):
                         continue
@@ -493,7 +513,7 @@ def run(ctx):
         for k in range(nrand):
             if not ctx.budget_ok():
                 break
-            config = rng.choice(["new", "loaded", "loaded-expired"])
+            config = rng.choice(["new", "loaded", "loaded-expired", "solo"])
             cname = rng.choice(["plain", "orphan"])
             extra = rng.choice([0, 1, 2])
             onames = ["o1", "o2"] + [f"o{3 + i}" for i in range(extra)]
